@@ -418,9 +418,9 @@ fn evaluate(c: &Case) -> (Vec<Fail>, Option<(Outcome, Reference)>) {
 //   alpha = 0 exactly (inside the statement "alpha >= 0"): the known finding `lasso-alpha-zero-err` is exactly
 //     "all settings valid, alpha == 0, outcome Err(Exceeded maximum number of iteration ...)"; anything else on such
 //     an input (hang, panic, another Err, Ok with a non-optimal w) is a failure;
-//   large scale (|y| at 1e8..1e12 x unit, alpha in its own range or following the scale): a hang or panic is a failure;
+//   large scale (|y| at 1e6..1e12 x unit, alpha in its own range or following the scale): a hang or panic is a failure;
 //     Err(line search exhausted) / an Ok failing only near_optimal is the listed finding `lasso-large-scale-err` when the
-//     input really is in one of its two regimes (|y| >= 1e6 and: n*alpha >= 1e8, or |y - mean y|^2 >= 1e15); the same
+//     input really is in one of its two regimes (|y| >= 1e6 and: n*alpha >= 1e7, or |y - mean y|^2 >= 1e13); the same
 //     outcome outside the regimes, any other Err, a wrong intercept etc. is a failure.
 // ------------------------------------------------------------------------------------------
 const LS_ERR: &str = "Exceeded maximum number of iteration for interior point optimizer";
@@ -433,17 +433,17 @@ fn finding_listed(id: &str) -> bool {
     }
     false
 }
-/// the predicate of `lasso-large-scale-err` as listed: targets of magnitude >= 1e6 and (n*alpha >= 1e8 or |y - mean y|^2 >= 1e15)
+/// the predicate of `lasso-large-scale-err` as listed: targets of magnitude >= 1e6 and (n*alpha >= 1e7 or |y - mean y|^2 >= 1e13)
 fn large_scale_regime(c: &Case, rf: &Reference) -> Option<&'static str> {
     let ymax = c.y.iter().fold(0.0f64, |a, b| a.max(b.abs()));
     let yc2: f64 = rf.yc.iter().map(|v| v * v).sum();
     if !(ymax >= 1e6) {
         return None;
     }
-    if c.x.len() as f64 * c.alpha >= 1e8 {
-        Some("n*alpha >= 1e8")
-    } else if yc2 >= 1e15 {
-        Some("|y - mean y|^2 >= 1e15")
+    if c.x.len() as f64 * c.alpha >= 1e7 {
+        Some("n*alpha >= 1e7")
+    } else if yc2 >= 1e13 {
+        Some("|y - mean y|^2 >= 1e13")
     } else {
         None
     }
@@ -462,7 +462,7 @@ fn evaluate_returns(c: &Case, family: &str, out: &mut Out) -> Vec<Fail> {
                 out.count("known:lasso-alpha-zero-err");
             } else if family == "large-scale" && e.contains(LS_ERR) && large_scale_regime(c, &rf).is_some() && finding_listed("lasso-large-scale-err") {
                 let regime = large_scale_regime(c, &rf).unwrap();
-                out.known("lasso-large-scale-err", &format!("fit on large targets (|y| >= 1e6 and n*alpha >= 1e8 or |y - mean y|^2 >= 1e15) returns Err({}) or an Ok that is not near-optimal", LS_ERR));
+                out.known("lasso-large-scale-err", &format!("fit on large targets (|y| >= 1e6 and n*alpha >= 1e7 or |y - mean y|^2 >= 1e13) returns Err({}) or an Ok that is not near-optimal", LS_ERR));
                 out.count(&format!("known:lasso-large-scale-err:Err:{}", regime));
             } else {
                 fails.push(Fail { oracle: "valid_input_fits", what: format!("{}: fit returned Err on a valid input ({}): {}", who, family, e) });
@@ -473,7 +473,7 @@ fn evaluate_returns(c: &Case, family: &str, out: &mut Out) -> Vec<Fail> {
             check_fit(c, &c.y, &f, &rf, &mut sub);
             if family == "large-scale" && sub.iter().all(|s| s.oracle == "near_optimal") && !sub.is_empty() && large_scale_regime(c, &rf).is_some() && finding_listed("lasso-large-scale-err") {
                 let regime = large_scale_regime(c, &rf).unwrap();
-                out.known("lasso-large-scale-err", &format!("fit on large targets (|y| >= 1e6 and n*alpha >= 1e8 or |y - mean y|^2 >= 1e15) returns Err({}) or an Ok that is not near-optimal", LS_ERR));
+                out.known("lasso-large-scale-err", &format!("fit on large targets (|y| >= 1e6 and n*alpha >= 1e7 or |y - mean y|^2 >= 1e13) returns Err({}) or an Ok that is not near-optimal", LS_ERR));
                 out.count(&format!("known:lasso-large-scale-err:Ok-not-near-optimal:{}", regime));
             } else {
                 if sub.is_empty() {
@@ -972,6 +972,37 @@ fn main() {
     }
 
     if timing { eprintln!("[c08 timing] {:.1}s before: // ---- correspondence ----", t_start.elapsed().as_secs_f64()); }
+    // ---- corpus/C08/*.json (minimised regression inputs and known-finding witnesses), every run ----
+    {
+        let dirs = [format!("{}/../corpus/C08", env!("CARGO_MANIFEST_DIR")), "/verif/corpus/C08".to_string()];
+        if let Some(dir) = dirs.iter().find(|d| std::path::Path::new(d).is_dir()) {
+            let mut files: Vec<_> = std::fs::read_dir(dir).map(|r| r.filter_map(|e| e.ok()).map(|e| e.path()).collect()).unwrap_or_default();
+            files.sort();
+            for f in files.iter().filter(|f| f.extension().map(|e| e == "json").unwrap_or(false)) {
+                let v = read_replay(f.to_str().unwrap());
+                let inp = if v.get("input").is_some() { v["input"].clone() } else { v.clone() };
+                let c = case_from_json(&inp);
+                let entry = inp["entry"].as_str().unwrap_or("fit").to_string();
+                out.eval(case_key(&c), true);
+                out.count("search:corpus-file");
+                let fails = match entry.as_str() {
+                    "invalid" => evaluate_invalid(&c),
+                    "budget" => evaluate_budget(&c),
+                    "alpha-zero" | "large-scale" => evaluate_returns(&c, &entry, &mut out),
+                    _ => evaluate(&c).0,
+                };
+                record(&mut out, &c, fails, &entry);
+                if entry == "fit" {
+                    // also through the model (D19 exercises the null step of the line search)
+                    let mut c0 = c.clone();
+                    c0.shift = 0.0;
+                    corr_case(&mut out, &c0, if c0.enet { "enet_fit" } else { "lasso_fit" });
+                }
+            }
+        } else {
+            out.count("search:corpus-dir-not-found");
+        }
+    }
     // ---- the two formerly non-terminating families (both tiers, every run) ----
     {
         // witnesses: alpha = 0 (Lasso and ElasticNet) and the 1e8-scale input of the build round
